@@ -923,6 +923,7 @@ class SuperProxy(SV):
 SUPER_ATTR = {}
 OBJ_ATTR = {}
 DEFAULT_INLINE = {
+    "unyt.array.allclose_units",
     "unyt.unit_object._ImportCache.__init__",
     "unyt.unit_object._ImportCache.ua",
     "unyt.unit_object._ImportCache.uq",
